@@ -1,0 +1,25 @@
+// Copyright 2019 The Go Authors. All rights reserved.
+// Use of this source code is governed by a BSD-style
+// license that can be found in the LICENSE file.
+
+//go:build verif
+
+package sumdb
+
+// VerifHook, if set, is called at the verification hook points of the Client
+// (only in builds with the "verif" tag). The points are:
+//
+//	"claim"           before the record cache is consulted for a lookup
+//	"merge-snapshot"  after mergeLatestMem read c.latest (args: latest.N, tree.N)
+//	"install"         before mergeLatestMem takes the lock to install a newer tree (args: tree.N)
+//	"installed"       after the install attempt (args: installed bool, tree.N)
+//	"check-snapshot"  after checkRecord read c.latest (args: id, latest.N)
+//
+// The hook is called without any Client lock held, so it may block.
+var VerifHook func(c *Client, point string, args ...interface{})
+
+func vhook(c *Client, point string, args ...interface{}) {
+	if h := VerifHook; h != nil {
+		h(c, point, args...)
+	}
+}
